@@ -4,10 +4,11 @@ C19 -- a universe and its laws always point at each other, after any (re)assignm
 
 from __future__ import annotations
 
+import collections
 import random
 import types
 
-from edgegraph.structure import DirectedEdge, UnDirectedEdge, Universe, Vertex
+from edgegraph.structure import DirectedEdge, Link, UnDirectedEdge, Universe, Vertex
 from edgegraph.structure.universe import UniverseLaws
 
 from egverif import histories, oracles
@@ -34,7 +35,7 @@ FLOOR_KEYS = ["op:set_laws:u_laws_None:new_free", "op:set_laws:u_laws_None:new_b
 
 
 def floors(ctx):
-    f = {"evaluations": 20000 if ctx.tier == "quick" else 200000, "histories": 1000, "rule_attribute_checks": 100, "whitelists_passed_as_proxy": 10, "bursts": 500,
+    f = {"evaluations": 20000 if ctx.tier == "quick" else 200000, "histories": 1000, "rule_attribute_checks": 100, "whitelists_passed_as_proxy": 10, "whitelists_with_rows_of_other_mapping_types": 10, "bursts": 500,
          "law_sets_built_with_positional_arguments": 100}
     for k in FLOOR_KEYS:
         f[k] = 1
@@ -44,6 +45,14 @@ def floors(ctx):
 def nontrivial_ops(before, after):
     keys = ("bound_elsewhere", "u_laws_None:new_", "u_has_other_laws", "w_bound:new=None")
     return any(v > before.get(k, 0) and any(x in k for x in keys) for k, v in after.items())
+
+
+class _Fallback(dict):
+    """A row type with a fallback answer for unlisted vertex classes (and, like defaultdict, it remembers it)."""
+
+    def __missing__(self, key):
+        self[key] = UnDirectedEdge
+        return UnDirectedEdge
 
 
 def rule_attributes(ctx, rng):
@@ -56,6 +65,14 @@ def rule_attributes(ctx, rng):
             wl = {Vertex: {Vertex: DirectedEdge}, Universe: {Vertex: UnDirectedEdge, Universe: DirectedEdge}}
             if n % 3 == 2:
                 wl = {}
+            # the rows may be any mapping the caller happens to have: a defaultdict (missing keys answer with a
+            # default AND are inserted), an OrderedDict, a dict subclass with __missing__
+            rowkind = (n // 3) % 4
+            if wl and rowkind:
+                mk = {1: lambda d: collections.defaultdict(lambda: DirectedEdge, d), 2: collections.OrderedDict,
+                      3: _Fallback}[rowkind]
+                wl = {k: mk(v) for k, v in wl.items()}
+                ctx.count("whitelists_with_rows_of_other_mapping_types")
         expect_wl = None if wl is None else {k: dict(v) for k, v in wl.items()}
         given = wl
         if wl is not None and n % 4 == 1:
@@ -100,6 +117,17 @@ def rule_attributes(ctx, rng):
         if not (r[0] == "exc" and r[1] is AttributeError):
             ctx.violation("rule_attr:assignable:edge_whitelist", "assigning laws.edge_whitelist did not raise AttributeError", case)
         if wl:
+            # plain LOOK-UPS through what the accessor returns - present and absent keys at both levels, every
+            # reading spelling - are reads: whatever they answer or raise, the rules stay as constructed
+            got = laws.edge_whitelist
+            for look in (lambda: got[Vertex][Universe], lambda: got[DirectedEdge], lambda: got[Universe][DirectedEdge],
+                         lambda: got[Vertex][Vertex], lambda: got.get(Link), lambda: got[Vertex].get(Link),
+                         lambda: Link in got[Vertex], lambda: list(got[Universe].items()), lambda: len(got[Vertex]),
+                         lambda: got[Universe][Link], lambda: dict(got[Vertex])):
+                oracles.outcome(look)
+            if read_wl() != expect_wl:
+                ctx.violation("rule_attr:lookup_changed_the_rules", "looking keys up in the returned edge_whitelist changed the "
+                              f"laws: now {read_wl()}, constructed with {expect_wl}", case)
             got = laws.edge_whitelist
             for mut in (lambda: got.__setitem__(Vertex, {}), lambda: got[Vertex].__setitem__(Universe, DirectedEdge),
                         lambda: got.pop(Vertex), lambda: got[Universe].clear()):
